@@ -55,6 +55,12 @@ MUTATIONS = [
     ('C11', 'truncate-through-os-open-unseen-by-wrappers', 'pico8/game/file.py',
      "        fmt.to_file(game, outfh, filename=filename, *args, **kwargs)",
      "        os.close(os.open(filename, os.O_WRONLY | os.O_CREAT | os.O_TRUNC))\n        fmt.to_file(game, outfh, filename=filename, *args, **kwargs)", 'red'),
+    ('C11', 'overwrite-removes-input-first', 'pico8/tool.py',
+     "        if overwrite and fname.endswith('.p8'):\n            out_fname = fname",
+     "        if overwrite and fname.endswith('.p8'):\n            out_fname = fname\n            os.remove(fname)", 'red'),
+    ('C11', 'backup-copy-while-encoding-(harmless-to-the-destination)', 'pico8/game/file.py',
+     "        fmt.to_file(game, outfh, filename=filename, *args, **kwargs)",
+     "        open(filename + '.bak', 'wb').close()\n        fmt.to_file(game, outfh, filename=filename, *args, **kwargs)", 'no-failing-input-found'),
     ('C11', 'sanity-check-after-sections', 'pico8/game/formatter/p8.py',
      "        outstr.write(b'__lua__\\n')\n        ended_in_newline = None",
      "        outstr.write(b'__lua__\\n')\n        ended_in_newline = None  # harmless reorder marker", 'green'),
